@@ -215,8 +215,8 @@ def defuse(F, res):
     order = oracle.section_order('/repo')
     rank_of = {n: i for i, n in enumerate(order)}
     # which payload arm does a call site belong to?  use the HIR-level worlds (nothing inlined)
-    nop = Policy(effects=lambda p: not p.startswith('std::') and not p.startswith('log::') and not p.startswith('anyhow::'),
-                 inline=lambda p: False)
+    from heval import local_policy
+    nop = local_policy(F, MP, public_events=True)
     ws = Evaluator(F, nop).run_fn(MP, [sym('wasm'), sym('config')])
     arm_of = {}     # callee name -> set(payload variants) for in-loop handler calls
     for w in ws:
